@@ -17,13 +17,13 @@ func c18(args []string) int {
 	ss := newShardSet(run)
 	hpackInts(run, ss)
 	hpackHuffman(run, ss)
-	hpackSessions(run, ss, "mosn", run.N(120, 1500))
-	hpackSessions(run, ss, "xnet", run.N(80, 1000))
-	hpackSessionsGen(run, ss, "mosn", run.N(40, 500), "-exact-fill", genExactFillSession)
-	hpackSessionsGen(run, ss, "xnet", run.N(40, 500), "-exact-fill", genExactFillSession)
-	hpackReprSessions(run, ss, run.N(150, 2000), false)
-	hpackReprSessions(run, ss, run.N(60, 800), true)
-	hpackKnobSessions(run, ss, run.N(60, 800))
+	hpackSessions(run, ss, "mosn", run.N(120, 500))
+	hpackSessions(run, ss, "xnet", run.N(80, 350))
+	hpackSessionsGen(run, ss, "mosn", run.N(40, 200), "-exact-fill", genExactFillSession)
+	hpackSessionsGen(run, ss, "xnet", run.N(40, 200), "-exact-fill", genExactFillSession)
+	hpackReprSessions(run, ss, run.N(150, 700), false)
+	hpackReprSessions(run, ss, run.N(60, 300), true)
+	hpackKnobSessions(run, ss, run.N(60, 300))
 	framesStreams(run, ss, "c18", true, run.N(60, 600), false)
 	framesWriters(run, ss, run.N(40, 400))
 	framesPreface(run, ss)
